@@ -5,7 +5,8 @@ Keys == {"a", "b"}
 KernelSet == [keys : (SUBSET Keys) \ {{}}, ident : {"", "k", "kernel_01"}]
 Init == c \in [kernels : {<<x>> : x \in KernelSet} \cup {<<x, y>> : x \in KernelSet, y \in KernelSet},
                qgs : {<<>>, <<"q">>, <<"q", "q">>, <<"q", "r">>},
-               hasModel : BOOLEAN, hasInit : BOOLEAN, seedChains : {0, 2, 3}, chains : {2}]
+               hasModel : BOOLEAN, hasInit : BOOLEAN, seedChains : {0, 2, 3}, chains : {2},
+               included : SUBSET {"a", "c"}, excluded : SUBSET Keys]
 Next == UNCHANGED c
 AcceptsInv == AcceptsIffBuildable(c)
 =============================================================================
